@@ -16,6 +16,8 @@ pub struct DiskState {
     pub rlog: Vec<u32>,
     /// number of multi-block calls seen (the FAT layer only ever issues single-block calls)
     pub multi_block_calls: u64,
+    /// number of injected faults that actually fired
+    pub fault_hits: u64,
 }
 
 impl DiskState {
@@ -43,6 +45,12 @@ impl RamDisk {
     pub fn calls(&self) -> u64 {
         self.0.borrow().calls
     }
+    pub fn fault_hits(&self) -> u64 {
+        self.0.borrow().fault_hits
+    }
+    pub fn clear_faults(&self) {
+        self.0.borrow_mut().faults.clear();
+    }
 }
 
 #[derive(Debug, Clone, Copy, PartialEq, Eq)]
@@ -59,6 +67,7 @@ impl BlockDevice for RamDisk {
         s.calls += 1;
         s.rlog.push(start.0);
         if s.faults.contains(&call) {
+            s.fault_hits += 1;
             for b in blocks.iter_mut() {
                 b.contents = [0xEE; 512];
             }
@@ -77,6 +86,7 @@ impl BlockDevice for RamDisk {
         let call = s.calls;
         s.calls += 1;
         if s.faults.contains(&call) {
+            s.fault_hits += 1;
             return Err(DevFault);
         }
         for (k, b) in blocks.iter().enumerate() {
